@@ -179,6 +179,19 @@ def state(index, rep):
                             bad.append(f"{fn.name}:{s.lineno}")
             rep.check(not bad, rule, f"shared-container:{rel}:{name}", f"a {kind}-level container is modified by run code at {bad[:4]}",
                       loc=loc(rel, st))
+    # memoised functions (lru_cache & co): their result is one object per process; nobody may write into it
+    from .memo import cached_result_mutations
+    memo, findings = cached_result_mutations(index, run_files(index))
+    rep.note_analysed("memoised_functions", [f"{rel}:{fn.name}" for rel, fn in memo])
+    seen = set()
+    for rel, st, cal, txt in findings:
+        if (cal, txt) in seen:
+            continue
+        seen.add((cal, txt))
+        rep.violation(rule, f"memoised:{cal}:{enclosing_qual(st)}", "a process-wide cached object is modified, so later runs in the same process "
+                      "start from the modified data: " + txt, loc=loc(rel, st))
+    if not findings:
+        rep.ok(rule, "memoised-results-never-modified")
     rep.require_min(rule, 60)
 
 
